@@ -234,6 +234,28 @@ impl EventData {
         }
     }
 
+    /// the operation is over without its timer having fired: the entry must not fire any
+    /// more. Unlinking it from the timer list is an operation of the list's consumer, the
+    /// selector thread of this fd. `subscribe` calls us on whatever worker runs the
+    /// coroutine: from there the entry is only disarmed and left to expire, unlinking it
+    /// beside the selector's own pops breaks the links of the list
+    #[cfg(feature = "io_timeout")]
+    fn remove_timer(&self) {
+        self.timer_id.store(0, Ordering::Release);
+        if let Some(h) = self.timer.take() {
+            unsafe {
+                // tell the timer function not to cancel the io
+                h.with_mut_data(|value| value.data.event_data = std::ptr::null_mut());
+            }
+            let owner = self.fd as usize % get_scheduler().workers;
+            if crate::scheduler::WORKER_ID.get() == owner {
+                #[cfg(may_verif)]
+                may_queue::verif::point(may_queue::verif::site::IO_TIMER_UNLINK, owner);
+                h.remove();
+            }
+        }
+    }
+
     #[inline]
     pub fn schedule(&self) {
         let co = match self.co.take() {
@@ -245,19 +267,7 @@ impl EventData {
         may_queue::verif::point(may_queue::verif::site::IO_SCHEDULE_TOOK, 0);
         // the operation is over, its timer entry is stale from here on
         #[cfg(feature = "io_timeout")]
-        self.timer_id.store(0, Ordering::Release);
-        // it's safe to remove the timer since we are running the timer_list in the same thread
-        #[cfg(feature = "io_timeout")]
-        self.timer.take().map(|h| {
-            unsafe {
-                // tell the timer function not to cancel the io
-                // it's not always true that you can really remove the timer entry
-                h.with_mut_data(|value| value.data.event_data = std::ptr::null_mut());
-            }
-            #[cfg(may_verif)]
-            may_queue::verif::point(may_queue::verif::site::IO_TIMER_UNLINK, self.fd as usize % get_scheduler().workers);
-            h.remove()
-        });
+        self.remove_timer();
 
         // schedule the coroutine
         get_scheduler().schedule(co);
@@ -275,19 +285,7 @@ impl EventData {
         may_queue::verif::point(may_queue::verif::site::IO_SCHEDULE_TOOK, 0);
         // the operation is over, its timer entry is stale from here on
         #[cfg(feature = "io_timeout")]
-        self.timer_id.store(0, Ordering::Release);
-        // it's safe to remove the timer since we are running the timer_list in the same thread
-        #[cfg(feature = "io_timeout")]
-        self.timer.take().map(|h| {
-            unsafe {
-                // tell the timer function not to cancel the io
-                // it's not always true that you can really remove the timer entry
-                h.with_mut_data(|value| value.data.event_data = std::ptr::null_mut());
-            }
-            #[cfg(may_verif)]
-            may_queue::verif::point(may_queue::verif::site::IO_TIMER_UNLINK, self.fd as usize % get_scheduler().workers);
-            h.remove()
-        });
+        self.remove_timer();
 
         // run the coroutine
         run_coroutine(co);
